@@ -56,7 +56,7 @@ def run(ctx):
     if not proofs["ok"]:
         broken.append("proof obligations of Props/%s.v do not check (norm_sound is what turns a `true` of the checker into a proof): %s"
                       % (pid, (proofs.get("broken_files") or proofs.get("nonstd_axioms") or proofs["log"][-800:])))
-    n = ctx.n(700, 12000)
+    n = ctx.n(700, 6000)
     hr = vf.go_harness(ctx, "query", "TestVerifC27$", HFILES, n, timeout=600 if ctx.tier == "quick" else 3000)
     recs = hr["records"]
     cases = [r for r in recs if r.get("kind") == "case"]
